@@ -1170,13 +1170,24 @@ where
                 _ => None,
             };
 
+            // Match native `open_input`: a batch whose tallest matrix is shorter than the
+            // global maximum is opened at the reduced index `index >> bits_reduced`, i.e. at
+            // the top `log_batch_max_height` bits of the query index.
+            let log_batch_max_height = mats
+                .iter()
+                .map(|(domain, _)| domain.log_size() + log_blowup)
+                .max()
+                .unwrap_or(0);
+            let bits_reduced = log_global_max_height.saturating_sub(log_batch_max_height);
+            let batch_index_bits = &index_bits[bits_reduced.min(index_bits.len())..];
+
             let op_ids = if perm_config.is_arity4_shape() {
                 verify_batch_circuit_arity4::<F, EF>(
                     builder,
                     perm_config,
                     &commitment_cap,
                     &dimensions,
-                    index_bits,
+                    batch_index_bits,
                     batch_openings,
                 )
             } else {
@@ -1185,7 +1196,7 @@ where
                     perm_config,
                     &commitment_cap,
                     &dimensions,
-                    index_bits,
+                    batch_index_bits,
                     batch_openings,
                     salts_for_batch,
                 )
